@@ -61,27 +61,37 @@ def _walk(rs, x, y, nvert, step=0.37):
     return np.cumsum(d, axis=0).ravel()
 
 
-def make_big(seed):
+def make_big(seed, tier='quick'):
+    """quick tier: rings / lines on both sides of 8192 vertices (2^14 coordinate values) and of 20 011 vertices, one
+    16 385-vertex line inside a multiline, elements of 2 500 parts, a polygon with 600 holes; the thorough tier
+    adds 70 001-vertex elements, 9 000-part elements and a polygon with 4 200 holes"""
     import numpy as np
     from spatialpandas.geometry import (LineArray, MultiLineArray, MultiPointArray, MultiPolygonArray,
                                         PolygonArray, RingArray)
     rs = np.random.RandomState(seed)
     third = 1.0 / 3.0
+    full = tier != 'quick'
+    nparts = 9000 if full else 2500
+    nholes = 4200 if full else 600
 
     def tri(x, y, s=0.3):
         return np.array([x, y, x + s, y + s * third, x + s * 0.1, y + s * 0.7, x, y])
+
+    def hole(i):
+        return tri(20.1 + 0.9 * (i % 70), 20.2 + 0.9 * (i // 70))[::-1].reshape(-1, 2)[:, ::-1].ravel()
     out = {}
     out['line'] = LineArray([_walk(rs, 0.1, 0.2, 5), _walk(rs, 10.1, -3.7, 8191), _walk(rs, 1e3 + 0.3, 0.7, 8192),
                              _walk(rs, -7.3, 0.9, 8193), None, _walk(rs, 1e6 + 0.1, 2e6 + 0.7, 20011), [],
-                             _walk(rs, 3.3, 4.4, 70001), _walk(rs, 0.7, 0.1, 4097)])
+                             _walk(rs, 0.7, 0.1, 4097)] + ([_walk(rs, 3.3, 4.4, 70001)] if full else []))
     out['ring'] = RingArray([_ring(rs, 0.1, 0.2, 1.3, 50), _ring(rs, 10.1, -3.7, 2.3, 8190),
                              _ring(rs, 10.1, 3.7, 2.3, 8191), _ring(rs, 1e3 + 0.3, 0.7, 5.1, 8192), None,
-                             _ring(rs, 1e6 + 0.1, 2e6 + 0.7, 9.9, 20011), _ring(rs, 3.3, 4.4, 1.7, 70001)])
-    out['multipoint'] = MultiPointArray([_walk(rs, 0.1, 0.2, 3), _walk(rs, 3.3, 4.4, 70001), None,
-                                         _walk(rs, 1e3 + 0.3, 0.7, 8192)])
+                             _ring(rs, 1e6 + 0.1, 2e6 + 0.7, 9.9, 20011)] +
+                            ([_ring(rs, 3.3, 4.4, 1.7, 70001)] if full else []))
+    out['multipoint'] = MultiPointArray([_walk(rs, 0.1, 0.2, 3), None, _walk(rs, 1e3 + 0.3, 0.7, 8192)] +
+                                        ([_walk(rs, 3.3, 4.4, 70001)] if full else []))
     out['multiline'] = MultiLineArray([
         [_walk(rs, 0.1, 0.2, 9000), _walk(rs, 5.1, 0.2, 12), _walk(rs, 1e3 + 0.3, 0.7, 20011)],
-        [_walk(rs, 0.37 * i, 0.11 * i, 2 + i % 3) for i in range(9000)],
+        [_walk(rs, 0.37 * i, 0.11 * i, 2 + i % 3) for i in range(nparts)],
         None,
         [_walk(rs, -7.3, 0.9, 8192)],
         [_walk(rs, 0.01 * i, 0.3, 3) for i in range(1100)] + [_walk(rs, 3.3, 4.4, 16385)]])
@@ -91,32 +101,33 @@ def make_big(seed):
         [_ring(rs, 1e3 + 0.3, 2e3 + 0.7, 5.1, 20011), _ring(rs, 1e3 + 0.3, 2e3 + 0.7, 1.1, 8200, ccw=False)],
         None,
         [_ring(rs, -7.3, 0.9, 0.7, 8190)], [_ring(rs, -7.3, 0.9, 0.7, 8191)], [_ring(rs, -7.3, 0.9, 0.7, 8192)],
-        # a shell with 4 200 tiny holes
-        [_ring(rs, 50.1, 50.2, 60.3, 4000)] + [tri(20.1 + 0.9 * (i % 70), 20.2 + 0.9 * (i // 70))[::-1].reshape(-1, 2)[:, ::-1].ravel()
-                                               for i in range(4200)],
-        [_ring(rs, 1e6 + 0.1, 2e6 + 0.7, 123.4, 70001)]])
+        # a shell with many tiny holes
+        [_ring(rs, 50.1, 50.2, 60.3, 4000)] + [hole(i) for i in range(nholes)]] +
+        ([[_ring(rs, 1e6 + 0.1, 2e6 + 0.7, 123.4, 70001)]] if full else []))
     out['multipolygon'] = MultiPolygonArray([
         [[_ring(rs, 3.3, 4.4, 1.7, 10007)], [_ring(rs, 30.3, 4.4, 0.9, 64)]],
-        [[tri(0.37 * i, 0.11 * i)] for i in range(9000)],
+        [[tri(0.37 * i, 0.11 * i)] for i in range(nparts)],
         [[_ring(rs, -3.3, 4.4, 1.1, 33)]],
         None,
-        [[_ring(rs, 1e3 + 0.3, 0.7, 7.7, 70001), _ring(rs, 1e3 + 0.3, 0.7, 1.3, 8192, ccw=False)], [tri(0.1, 0.2)]],
-        [[_ring(rs, 0.1 * i, 0.2, 0.04, 7)] for i in range(1500)] + [[_ring(rs, 1.1, 90.7, 2.2, 16400)]]])
+        [[_ring(rs, 1e3 + 0.3, 0.7, 7.7, 70001 if full else 20011), _ring(rs, 1e3 + 0.3, 0.7, 1.3, 8192, ccw=False)],
+         [tri(0.1, 0.2)]],
+        [[_ring(rs, 0.1 * i, 0.2, 0.04, 7)] for i in range(1500 if full else 300)] + [[_ring(rs, 1.1, 90.7, 2.2, 16400)]]])
     return out
 
 
-def big_suite(seed, repeats=2):
+def big_suite(seed, tier='quick'):
     """returns ({name: digest}, [names that differ between thread counts / repeats])"""
+    repeats = 1 if tier == 'quick' else 2
     import dask
     import dask.dataframe as dd
     import numba
     import numpy as np
     import spatialpandas.dask  # noqa: F401
     from spatialpandas import GeoDataFrame, GeoSeries
-    arrs = make_big(seed)
+    arrs = make_big(seed, tier)
     box = (0.35, -1.05, 12.15, 4.45)
     have = numba.config.NUMBA_NUM_THREADS
-    counts = [k for k in (1, 2, 3, 4, 7, 16) if k <= have]
+    counts = [k for k in ((1, 2, 4, 16) if tier == 'quick' else (1, 2, 3, 4, 7, 16)) if k <= have]
     before = numba.get_num_threads()
 
     def evaluate():
@@ -347,16 +358,24 @@ HISTORIES = ('first', 'after-everything', 'after-nothing', 'dirty-01', 'dirty-ff
              'after-everything-again')
 
 
-def history_suite(seed, tier):
-    """returns ({name: digest of the first evaluations}, [violation records], number of evaluations)"""
+def history_suite(seed, tier, share=-1, nshares=4):
+    """The arrays (kind x size) are dealt out to `nshares` processes: this call takes those of `share` (-1: all of
+    them, -2: none).  In the quick tier every kind keeps the sizes 1, 48 and 777 spread over the shares plus two more.
+    returns ([violation records], number of evaluations, [arrays taken])"""
     import numpy as np
     rs = np.random.RandomState(seed)
     sizes_n = [1, 3, 48, 200, 777] if tier == 'quick' else [1, 2, 3, 17, 48, 200, 777, 1500, 5000]
-    digests, bad, evals = {}, [], 0
+    bad, evals, taken = [], 0, []
     seen_bad = set()
-    for kind in KINDS:
-        for n in sizes_n:
-            arr = make_small(kind, gen_elements(rs, kind, n))
+    serial = 0
+    for ki, kind in enumerate(KINDS):
+        for ni, n in enumerate(sizes_n):
+            elements = gen_elements(rs, kind, n)            # (drawn for every array: the shares see the same data)
+            serial += 1
+            if share == -2 or (share >= 0 and (ki + ni + seed) % nshares != share):
+                continue
+            taken.append(f'{kind}[{n}]')
+            arr = make_small(kind, elements)
             with_dask = n == 48
             ops, sizes = build_ops(kind, arr, rs, with_dask)
             boxes = boxes_for(arr)
@@ -384,8 +403,6 @@ def history_suite(seed, tier):
                         results[hist] = _guard(lambda: fn(b))
                         evals += 1
                     first = results['first']
-                    key = f'hist:{op}:{kind}'
-                    digests.setdefault(key, []).append([n, bname, first])
                     differ = [hh for hh, r in results.items() if r != first]
                     if differ and (op, kind) not in seen_bad:
                         seen_bad.add((op, kind))
@@ -394,7 +411,7 @@ def history_suite(seed, tier):
                                     'histories_that_differ_from_first': differ,
                                     'first': str(first)[:160],
                                     'other': str(results[differ[0]])[:160]})
-    return {k: _h(v) for k, v in digests.items()}, bad, evals
+    return bad, evals, taken
 
 
 def client_history(seed, tier, nthreads=8):
@@ -409,7 +426,7 @@ def client_history(seed, tier, nthreads=8):
     rs = np.random.RandomState(seed + 77)
     failures, count = [], 0
     for kind in KINDS:
-        for n in ((48, 200) if tier == 'quick' else (7, 48, 200, 777)):
+        for n in ((48,) if tier == 'quick' else (7, 48, 200, 777)):
             arr = make_small(kind, gen_elements(rs, kind, n))
             ops, _sizes = build_ops(kind, arr, rs, False)
             ops = [o for o in ops if o[0] in ('intersects_bounds', 'intersects_bounds[inds]', 'cx', 'cx(sindex)',
@@ -427,7 +444,7 @@ def client_history(seed, tier, nthreads=8):
                 wrong = None
                 try:
                     bar.wait()
-                    for _rp in range(2):
+                    for _rp in range(1 if tier == 'quick' else 3):
                         for j in order:
                             q = queries[j]
                             r = _guard(lambda: q[3](q[2]))
